@@ -1,6 +1,7 @@
 package props
 
 import (
+	"go/constant"
 	"fmt"
 
 	"golang.org/x/tools/go/ssa"
@@ -84,6 +85,10 @@ func checkC16(c *Ctx) {
 	c.drainBeforeEOF()
 
 	teardownOrder(c, "C16")
+	// what teardown deregisters is the session record: a tree registration must be recorded in the same step
+	if sub := c.subscribeHandler(); sub != nil {
+		c.subscribeLoop(sub)
+	}
 	goroutineJoin(c)
 	pumpsCloseRing(c)
 	serverClose(c)
@@ -118,7 +123,14 @@ func goroutineJoin(c *Ctx) {
 		nd := 0
 		for _, a := range adds {
 			if ir.Before(a, g) {
-				nd++
+				// Add(k) with a constant k counts k times
+				k := 1
+				if kc, ok := a.Common().Args[len(a.Common().Args)-1].(*ssa.Const); ok && kc.Value != nil {
+					if v, exact := constant.Int64Val(kc.Value); exact && v > 0 && v < 1000 {
+						k = int(v)
+					}
+				}
+				nd += k
 			}
 		}
 		// Add operand must be the constant 1 for the pairing to be one-to-one
@@ -653,6 +665,19 @@ func serverClose(c *Ctx) {
 								}
 							}
 						}
+					}
+				}
+			}
+			// a snapshot made with append([]*service(nil), svr.svcs...): a whole-slice append to an empty slice
+			if ap, isCall := subj.(*ssa.Call); isCall && !okSubj {
+				if bi, isB := ap.Common().Value.(*ssa.Builtin); isB && bi.Name() == "append" && len(ap.Common().Args) == 2 {
+					a := ap.Common().Args
+					emptyBase := false
+					if k, isK := a[0].(*ssa.Const); isK && k.IsNil() {
+						emptyBase = true
+					}
+					if src, isLoad := a[1].(*ssa.UnOp); isLoad && emptyBase && ir.PathOf(src).Class() == "service.Server.svcs" {
+						okSubj = true
 					}
 				}
 			}
